@@ -71,6 +71,7 @@ type Term struct {
 
 // TermBank interns terms and remembers declarations.
 type TermBank struct {
+	fbMemo map[*Term]map[*Term]bool
 	bvMemo map[*Term]bool
 	terms  map[string]*Term
 	nextID int
@@ -852,3 +853,44 @@ func (b *TermBank) hasBoundVar(t *Term) bool {
 	b.bvMemo[t] = r
 	return r
 }
+
+// freeBound returns the set of bound variables occurring free in t.
+func (b *TermBank) freeBound(t *Term) map[*Term]bool {
+	if b.fbMemo == nil {
+		b.fbMemo = map[*Term]map[*Term]bool{}
+	}
+	if r, ok := b.fbMemo[t]; ok {
+		return r
+	}
+	var r map[*Term]bool
+	if t.Op == "bound" {
+		r = map[*Term]bool{t: true}
+	} else {
+		for _, a := range t.Args {
+			fa := b.freeBound(a)
+			if len(fa) == 0 {
+				continue
+			}
+			if r == nil {
+				r = map[*Term]bool{}
+			}
+			for k := range fa {
+				r[k] = true
+			}
+		}
+		if (t.Op == "forall" || t.Op == "exists") && r != nil {
+			nr := map[*Term]bool{}
+			for k := range r {
+				nr[k] = true
+			}
+			for _, bv := range t.Bound {
+				delete(nr, bv)
+			}
+			r = nr
+		}
+	}
+	b.fbMemo[t] = r
+	return r
+}
+
+func (b *TermBank) hasFreeBound(t *Term) bool { return len(b.freeBound(t)) > 0 }
